@@ -307,6 +307,24 @@ class Executor(object):
         m = contract.file[:-3].replace("/", ".")
         return m[:-9] if m.endswith(".__init__") else m
 
+    def dict_put(self, st, d, m=None, h=None):
+        """write the contents arrays of a dict object; an inner dict of a dict-of-dicts writes through to the outer table"""
+        al = getattr(d, "alias_of", None)
+        for field, arr in (("map", m), ("has", h)):
+            if arr is None:
+                continue
+            arr = arr.z if isinstance(arr, SArr) else arr
+            if al is not None:
+                outer, key = al
+                st.heap[(outer.oid, field + "2")] = SArr(z3.Store(self.heap_get(st, outer, field + "2").z, key, arr))
+            else:
+                st.heap[(d.oid, field)] = SArr(arr)
+
+    def inner_dict(self, outer, key):
+        o = Obj(dict, "%s[...]" % outer.name, "dict")
+        o.alias_of = (outer, key)
+        return o
+
     def is_repo_function(self, f):
         return isinstance(f, types.FunctionType) and \
             os.path.realpath(f.__code__.co_filename).startswith(self.repo_root + os.sep)
@@ -385,6 +403,10 @@ class Executor(object):
             o = Obj(dict, name, "dict")
             o.valkind = "slot"
             return o
+        if sort == "dict:dict":
+            o = Obj(dict, name, "dict")
+            o.valkind = "dict"
+            return o
         if sort == "any":
             return SVal(fresh(name, Val))
         if sort.startswith("obj:"):
@@ -404,6 +426,11 @@ class Executor(object):
         return clsname
 
     def heap_get(self, st, obj, field):
+        al = getattr(obj, "alias_of", None)
+        if al is not None and field in ("map", "has"):
+            # the inner dict stored in a dict-of-dicts under a key: a view of the outer table's 2-D arrays (no state of its own)
+            outer, key = al
+            return SArr(z3.Select(self.heap_get(st, outer, field + "2").z, key))
         k = (obj.oid, field)
         if k in st.heap:
             return st.heap[k]
@@ -420,6 +447,11 @@ class Executor(object):
             return v
         if obj.kind == "vlist" and field == "items":
             v = SVL(z3.Const("%s.items#%d" % (obj.name, obj.oid), VL))
+            self.field_init[k] = v
+            return v
+        if obj.kind == "dict" and field in ("map2", "has2"):
+            rng = z3.ArraySort(Val, Val) if field == "map2" else z3.ArraySort(Val, Bool)
+            v = SArr(z3.Const("%s.%s#%d" % (obj.name, field, obj.oid), z3.ArraySort(Val, rng)))
             self.field_init[k] = v
             return v
         if obj.kind == "dict" and field in ("map", "has"):
@@ -729,7 +761,8 @@ class Executor(object):
             if isinstance(v, Obj) and v.kind == "joinlist":
                 return {(v.oid, "joined"), (v.oid, "n")}
             if isinstance(v, Obj) and v.kind == "dict":
-                return {(v.oid, "map"), (v.oid, "has")}
+                return {(v.oid, "map"), (v.oid, "has"), (v.oid, "map2"), (v.oid, "has2")} if getattr(v, "valkind", None) == "dict" \
+                    else {(v.oid, "map"), (v.oid, "has")}
             if isinstance(v, Obj) and v.kind == "vlist":
                 return {(v.oid, "items")}
             if isinstance(v, Obj):
@@ -744,7 +777,8 @@ class Executor(object):
         tgt = self.heap_get(st, v, parts[-1])
         # a path to a container denotes the field AND the container's contents
         if isinstance(tgt, Obj) and tgt.kind == "dict":
-            return {(v.oid, parts[-1]), (tgt.oid, "map"), (tgt.oid, "has")}
+            extra = {(tgt.oid, "map2"), (tgt.oid, "has2")} if getattr(tgt, "valkind", None) == "dict" else set()
+            return {(v.oid, parts[-1]), (tgt.oid, "map"), (tgt.oid, "has")} | extra
         if isinstance(tgt, Obj) and tgt.kind == "joinlist":
             return {(v.oid, parts[-1]), (tgt.oid, "joined"), (tgt.oid, "n")}
         if isinstance(tgt, Obj) and tgt.kind == "vlist":
@@ -2303,12 +2337,14 @@ class Executor(object):
                 st.heap[key] = SVL(fresh("items~%s" % tag, VL))
             elif fld in ("map", "has") and objs.get(oid) is not None and objs[oid].kind == "dict":
                 st.heap[key] = SArr(fresh("%s~%s" % (fld, tag), z3.ArraySort(Val, Val if fld == "map" else Bool)))
+            elif fld in ("map2", "has2") and objs.get(oid) is not None and objs[oid].kind == "dict":
+                st.heap[key] = SArr(fresh("%s~%s" % (fld, tag), z3.ArraySort(Val, z3.ArraySort(Val, Val if fld == "map2" else Bool))))
             else:
                 obj = objs.get(oid)
                 srt = self.field_sort(obj, fld) if obj is not None else None
                 if srt is None:
                     raise CheckerError("cannot havoc %s.%s" % (obj, fld))
-                if srt in ("vlist", "dict", "dict:slot", "joinlist"):
+                if srt in ("vlist", "dict", "dict:slot", "dict:dict", "joinlist"):
                     continue        # the container object stays; its contents are havocked by their own keys
                 st.heap[key] = self.fresh_of(srt, "%s.%s~%s" % (obj.name, fld, tag))
 
